@@ -462,7 +462,8 @@ class tenmat:
         -------
         :class:`numpy.ndarray`, float, int
         """
-        return self.data[item]
+        # Copy so that a slice of the data is not a view into this tenmat
+        return np.copy(self.data[item])
 
     def __mul__(self, other):
         """
